@@ -18,6 +18,7 @@ func init() {
 			ruleM4(c)
 			ruleM4b(c)
 			ruleM5(c)
+			ruleM6(c)
 		},
 		explanation: "Decides the framing structure of the multiplexer: every write to the trunk happens in mux.write with the trunk write lock held, the lock being taken before the chunk loop and released only by the deferred unlock (so header, payload and all chunks of one logical write are contiguous on the trunk); the length written into the header, the upper bound of the payload slice and the advance of the remaining data are one and the same value, the id written is the connection's, and both slice expressions are proved in bounds inductively; writer and reader use the same byte order and the same constant header sub-ranges for id and length; there is exactly one reader goroutine, started where the mux is created, and it is the only code that reads the trunk and the only sender on the per-connection queues, whose only receiver is conn.Read; the buffer queued is the buffer read and it is queued on the connection looked up under the header's id; the raw trunk handed out by Trunk() is used only for the peer-credential lookup; Read copies out of the dequeued message and returns its length.",
 		notDecided: []string{
@@ -568,4 +569,123 @@ func stripConv(v ssa.Value) ssa.Value {
 			return v
 		}
 	}
+}
+
+// ruleM6: one logical connection per id.
+func ruleM6(c *Ctx) {
+	m := c.M
+	c.rule("M6", "one connection per id: mux.Open returns the connection already registered under the id; a new connection is created and registered only on the lookup-miss path, under the connection lock, with its own id and queue; conn.Close unregisters only itself", 3)
+	la := allLocks(c)
+	op := m.method(pkgMux, "mux", "Open")
+	var lk *ssa.Lookup
+	for _, b := range op.Blocks {
+		for _, in := range b.Instrs {
+			if l, ok := in.(*ssa.Lookup); ok && l.CommaOk && m.ap(l.X).PathString() == "conns" {
+				lk = l
+			}
+		}
+	}
+	if lk == nil {
+		c.violate("M6", "Open/lookup", op.Pos(), "Open looks the id up in the connection table", "no comma-ok lookup in m.conns")
+		return
+	}
+	okKey := lk.Index == ssa.Value(op.Params[1])
+	c.ok("M6", "Open/lookup", lk.Pos(), okKey && la.holds(lk, "mux.connLock", 0), "Open looks its id up under the connection lock", "the lookup is not keyed by the id parameter or not under the connection lock")
+	var upd *ssa.MapUpdate
+	for _, b := range op.Blocks {
+		for _, in := range b.Instrs {
+			if mu, ok := in.(*ssa.MapUpdate); ok && m.ap(mu.Map).PathString() == "conns" {
+				upd = mu
+			}
+		}
+	}
+	bad := ""
+	if upd == nil {
+		bad = "a new connection is never registered: frames for it are dropped"
+	} else {
+		miss := false
+		for _, cd := range controls(upd.Block()) {
+			cd = normCond(cd)
+			if ex, ok := cd.V.(*ssa.Extract); ok && ex.Tuple == ssa.Value(lk) && ex.Index == 1 && !cd.Pol {
+				miss = true
+			}
+		}
+		_, fresh := upd.Value.(*ssa.Alloc)
+		switch {
+		case !miss:
+			bad = "the registration is not confined to the lookup-miss path: a second Open of the same id replaces the connection, and data queued on the first one is lost"
+		case !fresh || upd.Key != ssa.Value(op.Params[1]):
+			bad = "what is registered is not a fresh connection under the requested id"
+		case !la.holds(upd, "mux.connLock", 'W'):
+			bad = "the registration is not under the connection lock"
+		}
+		// the id stored in the new connection is the requested one
+		okID := false
+		for _, fl := range m.fieldFlows(op) {
+			if fl.Path == "id" && fl.Val == ssa.Value(op.Params[1]) {
+				okID = true
+			}
+		}
+		if bad == "" && !okID {
+			bad = "the new connection does not carry the requested id"
+		}
+	}
+	pos := op.Pos()
+	if upd != nil {
+		pos = upd.Pos()
+	}
+	c.ok("M6", "Open/register", pos, bad == "", "Open creates and registers a connection only when none exists for the id", bad)
+	// returns: looked-up or the new one
+	okRet := true
+	for _, r := range returnsOf(op) {
+		for _, v := range returnValues(r, 0) {
+			if isNilConst(v) {
+				continue
+			}
+			src := v
+			if mi, ok := v.(*ssa.MakeInterface); ok {
+				src = mi.X
+			}
+			for _, s2 := range valueSources(src, r, 0) {
+				if upd != nil && s2 == upd.Value {
+					continue
+				}
+				if ex, ok := s2.(*ssa.Extract); ok && ex.Tuple == ssa.Value(lk) && ex.Index == 0 {
+					continue
+				}
+				okRet = false
+			}
+		}
+	}
+	// the queue has the configured length
+	okQ := false
+	for _, fl := range m.fieldFlows(op) {
+		if fl.Path == "readC" {
+			if mk, ok := fl.Val.(*ssa.MakeChan); ok && m.ap(mk.Size).PathString() == "qlen" {
+				okQ = true
+			}
+		}
+	}
+	c.ok("M6", "Open/queue-length", op.Pos(), okQ, "a new connection's receive queue has the mux's configured queue length", "the receive queue is not created with the configured length (mux.qlen): a receiver that keeps up with the configured length still overflows the queue, which closes the whole mux")
+	c.ok("M6", "Open/result", op.Pos(), okRet, "Open returns the registered connection", "Open returns something other than the looked-up or newly registered connection")
+	// conn.Close deletes only itself
+	cc := m.method(pkgMux, "conn", "Close")
+	okDel := false
+	for _, ci := range calls(cc) {
+		call, ok := ci.(*ssa.Call)
+		if !ok {
+			continue
+		}
+		if bi, ok := call.Call.Value.(*ssa.Builtin); ok && bi.Name() == "delete" {
+			for _, cd := range controls(call.Block()) {
+				cd = normCond(cd)
+				if bo, ok := cd.V.(*ssa.BinOp); ok && bo.Op == token.EQL && cd.Pol {
+					if bo.Y == ssa.Value(cc.Params[0]) || bo.X == ssa.Value(cc.Params[0]) {
+						okDel = true
+					}
+				}
+			}
+		}
+	}
+	c.ok("M6", "Close/self-only", cc.Pos(), okDel, "conn.Close unregisters the id only if it is still registered to this very connection", "conn.Close deletes the table entry unconditionally: closing a stale handle unregisters a newer connection with the same id")
 }
